@@ -6,8 +6,22 @@ TECH = ("runtime monitoring: real driver code executed on a simulated nRF24L01 e
 CHECKS = {
  "C01": ("unique-id payload histories + SPI-bus byte monitor + caller-buffer snapshot monitor", "4/C01",
          "Seeded exploration of (length, buffer type, length mode, pipe, address width, rate, CRC, ack mode, list form, SPI flavour); every payload is followed from the W_TX_PAYLOAD bytes on the bus to the peer's read(), with exactly-once/order/pipe checks and a state-based rejection clause. Exploration, not proof: held on the executions observed."),
+ "C02": ("offline checker over the air log + PTX transaction record per send()/resend() call, under per-attempt fault plans; virtual-clock deadline monitor", "4/C02",
+         "Exhaustive {lost, ack-lost, delivered}^n loss patterns for <=4 (quick) / <=6 (thorough) attempts, all ACK-payload call histories of depth 3/4, structured first-success-at-k patterns up to arc 15 x force_retry 3, and random call sequences; each call's result is compared with what the simulated radio actually did, attempts are counted on air, leaks after return and into later calls are looked for, and termination is a bounded-progress check on the virtual clock."),
  "C03": ("register-file snapshot monitor vs. independent datasheet-derived reference configuration model + SPI sanitizer + with-block coherence probe", "4/C03",
          "Bounded-exhaustive pairs (quick) / triples (thorough) over a 66-call core alphabet plus random depth-40 walks over a 170-call alphabet, on plus/non-plus chips and three SPI flavours; after every call the whole register file, CE, exception class, sanitizer log and (on half the sequences) every getter are compared with the reference model."),
+ "C05": ("unique-id message histories over a deterministic multi-MCU scheduler; offline exactly-once/no-misdelivery checker over all nodes' application logs + air log", "4/C05",
+         "Sampled tree topologies (2..12 real driver instances, one thread per MCU, seeded cost profiles and jitter) exchanging one message at a time; judged at virtual-time quiescence. Ideal medium for liveness clauses, hostile medium for no-corruption/no-misdelivery only. Known protocol-level finding (fragmented multi-hop) is reported as KNOWN-FINDING by mechanism."),
+ "C06": ("unique-id fragment histories checked by set membership/counting against the sent messages (fragments from an independent TMRh20-numbering fragmenter)", "4/C06",
+         "Exhaustive per-fragment {drop, once, twice} patterns with adjacent transpositions and every dequeue point for 2..4 fragments, all interleavings of two senders' streams with equal/different frame ids, plus random stray/restart histories up to 7 fragments and 3 senders; delivered through the radio RX FIFO + update() and through FrameQueueFrag.enqueue directly."),
+ "C08": ("reference automaton at every call return + CONFIG/CE trace monitor + real probe transmissions from a third simulated radio", "4/C08",
+         "Breadth-first exploration with state hashing (radio registers x driver object state) to depth 4 (quick) / 6 (thorough) over a 19-call alphabet x address widths 3..5, plus random depth-30 walks; the last call of every executed path is followed by probe packets / a send() to a listening peer."),
+ "C09": ("pure observation: register snapshot at the end of an object's block vs. snapshot right after re-entry, for interleaved objects of all driver classes on one radio", "4/C09",
+         "1.5k (quick) / 150k (thorough) seeded interleavings of with-blocks of 2-3 objects of any mix of six classes, each block running 0..8 configuration calls; PWR_UP/CE checked after every __exit__."),
+ "C10": ("accessor results and side effects compared with the simulator's FIFOs/STATUS/OBSERVE_TX/IRQ line after every call; status-derived attributes judged against the STATUS byte actually shifted out", "4/C10",
+         "Random histories of traffic (injected and real receptions on all pipes, transmissions with k lost attempts, queued payloads, ACK payloads) interleaved with all accessor forms in dynamic, static (per-pipe lengths) and mixed modes and all IRQ masks."),
+ "C12": ("history + executable reference queue; clone-and-drain content comparison after every operation", "4/C12",
+         "All operation histories of depth 6 (quick) / 8 (thorough) over a 9-operation alphabet (fresh/duplicate/re-used-object enqueue, dequeue, peek, len, max_queue_size lower/higher, fragmentation toggle) by DFS with cloned states, plus random walks on a real node with `fragmentation` toggled."),
 }
 NOT_YET = {}
 def main():
